@@ -106,6 +106,8 @@ SYNTAX_SENSITIVE = {
     "fstring-in-for-iter": "d = {'k': 'xy'}\nfor c in f\"{d['k']}\":\n    print(c)\n",
     "fstring-in-class-kw-and-deco": "d = {'k': 'v'}\ndef deco(tag):\n    return lambda c: c\n@deco(f\"{d['k']}\")\nclass K:\n    t = f\"{d['k']}\"\nprint(K.t)\n",
     "fstring-non-ascii-in-field": "d = {'\u00e9': 1, '\u20ac': 2}\nprint(f\"{d['\u00e9']} {d['\u20ac']} {'\u00fc'}\")\n",
+    "fstring-bytes-in-field": "data = b'PKzip'\nprint(f'zip archive: {data.startswith(b\"PK\")} {b\"x\" in data}')\n",
+    "walrus-set-and-index": "table = [10, 20, 30]\nn = 0\nprint(table[(n := n + 1)], {(y := 3), y ** 2}, [(a := 1), (b := 2)], n, y, a, b)\n",
     "explicit-staticmethod-new": "class K:\n    @staticmethod\n    def __new__(cls, *a):\n        return object.__new__(cls)\n    @classmethod\n    def __init_subclass__(cls, **kw):\n        cls.seen = True\n    @classmethod\n    def __class_getitem__(cls, item):\n        return item\nclass L(K):\n    pass\nprint(type(K()).__name__, L.seen, K[3])\n",
     "super-in-loop": "class B:\n    def m(self):\n        return 'B'\nclass K(B):\n    def m(self):\n        r = []\n        for i in range(2):\n            r.append(super().m())\n        n = 0\n        while n < 1:\n            n += 1\n            r.append(super().m() + 'w')\n        return r\nprint(K().m())\n",
     "super-in-comprehension-free": "class B:\n    def m(self):\n        return 'B'\nclass K(B):\n    def m(self):\n        if True:\n            return super().m() + '!'\nprint(K().m())\n",
